@@ -267,7 +267,7 @@ def check(prop, tier, repo, seed):
     else:
         print("OK %s: %d/%d obligations discharged (%s), %.1fs" % (prop, discharged, obligations,
               ", ".join(["%s %d fns" % (u.unit, u.verified) for u in units] + (["kani %d harnesses" % len(kani_results)] if kani_results else [])
-                        + ["bounded %s: %d evaluations" % (b["program"], b["evaluations"]) for b in bounded]), wall))
+                        + ["bounded %s: %d evaluations" % (b["program"], b["evaluations"]) for b in bounded if b.get("program")]), wall))
     for u in unstable:
         print("WARNING unstable proof: %s" % u)
     for n in notes:
@@ -286,7 +286,8 @@ def check(prop, tier, repo, seed):
         "backends": ([{"name": "verus 0.2026.09.13 + z3", "units": [u.unit for u in units], "smt_ms": smt_ms,
                        "functions_verified": sum(u.verified for u in units)}] if units else []) +
                     ([{"name": "native bounded programs (rustc release, overflow checks on) -- bounded stand-in, not a proof",
-                       "programs": [b["program"] for b in bounded], "evaluations": sum(b["evaluations"] for b in bounded)}] if bounded else []) +
+                       "programs": [b["program"] for b in bounded if b.get("program")], "evaluations": sum(b.get("evaluations", 0) for b in bounded if b.get("program"))}]
+                     if [b for b in bounded if b.get("program")] else []) +
                     ([{"name": "kani 0.68 + cbmc 6.11", "harnesses": len(kani_results), "ok": sum(1 for r in kani_results if r["status"] == "ok"),
                        "cpu_s": round(sum(float(r.get("time_s") or 0) for r in kani_results), 1)}] if kani_results else []),
         "rewrites_applied": rules,
@@ -301,8 +302,8 @@ def check(prop, tier, repo, seed):
         "notes": notes,
     }
     if level != "proof":
-        cov["evaluations"] = max(1, obligations) + sum(b["evaluations"] for b in bounded)
-        cov["distinct_nontrivial"] = max(2, discharged) + sum(b["evaluations"] for b in bounded)
+        cov["evaluations"] = max(1, obligations) + sum(b.get("evaluations", 0) for b in bounded if b.get("program"))
+        cov["distinct_nontrivial"] = max(2, discharged) + sum(b.get("evaluations", 0) for b in bounded if b.get("program"))
         cov["rule"] = ("one evaluation per function-level verification condition generated from the extracted code, plus one per input "
                        "executed by a bounded native program (each input is a distinct value of its enumeration)")
     ev = {
